@@ -22,6 +22,9 @@ def plan(ctx):
                                      + ("17 selected (call, text) pairs" if quick else "all 3 x 29 (call, text) pairs")
                                      + " (finite domain; the solver only enumerates indices, bodies run natively)",
                               desc=f"after each kind of call on {h.TEXTS[t1]!r}, the next call equals a fresh parser's; post-state lies in the havoc domain; process-global state (decimal context) unchanged"))
+    obs.append(Obligation("history.lambda_after_failed_define", "xh", "c11", "lambda_after_failed_define", param={"t1": 0, "quick": True}, timeout=T * 2,
+                          bounds="defining eval fails in 3 ways (undefined name, runtime error, ops limit); the lambda is then called 1..40 times for another names mapping and once for its own",
+                          desc="a lambda stored by an eval that later failed resolves its free names in, and is charged to, the eval that calls it"))
     obs.append(Obligation("history.persisted_names", "xh", "c11", "persisted_names", timeout=T * 2,
                           bounds="6 three-step scripts (define a lambda / call it and mutate what it returned / call it again) on one names mapping kept by the host; with / without a parse cache; middle step on the same mapping or a copy",
                           desc="what a lambda returns does not depend on what earlier evaluations did to its earlier results"))
